@@ -31,7 +31,7 @@ struct ITMirror {
 static_assert(sizeof(ITMirror) == sizeof(IT), "layout mirror of interleaved_fwd_fixpoint_iterator<TCFG,GV> out of date");
 static z_number mkz(i128 v) { bool neg = v < 0; u128 u = neg ? (u128)(-v) : (u128)v; z_number hi = z_number::from_uint64((uint64_t)(u >> 64)), lo = z_number::from_uint64((uint64_t)u);
   z_number r = (hi << z_number(64)) + lo; return neg ? -r : r; }
-static RB mkb(const Wit &w, const std::string &p) { RB b(mkz((i128)(((u128)w.u(p + ".f1.f0.a[0].f1") << 64) | (u128)w.u(p + ".f1.f0.a[0].f0")))); b._is_infinite = w.u(p + ".f0") != 0; return b; }   // raw fields
+static RB mkb(const Wit &w, const std::string &p) { RB b(mkz((i128)(((u128)w.u(p + ".f1.f0.a.f1") << 64) | (u128)w.u(p + ".f1.f0.a.f0")))); b._is_infinite = w.u(p + ".f0") != 0; return b; }   // raw fields
 static bool same(const std::vector<RB> &x, const std::vector<RB> &y) { if (x.size() != y.size()) return false; for (size_t i = 0; i < x.size(); i++) if (!(x[i]._is_infinite == y[i]._is_infinite && x[i]._n == y[i]._n)) return false; return true; }
 struct Setup { crab::fixpoint_parameters params; ITMirror *m; IT *it; unsigned long node; unsigned iteration; GV before, after; bool found; RT entry;
   Setup(const Wit &w, bool table, bool alias) : entry(0) {
